@@ -668,7 +668,7 @@ EXPECTED_PROBES = ['srm_flip', 'skin_asymptote_flip', 'revisit', 'near_then_far'
                    'history_contains_raise', 'stale_file_longer_than_new', 'geo_all_ge2_not_all',
                    'multi_media_far_field', 'sweep_negative_increment', 'round_frequencies',
                    'int_typed_frequency', 'mid_model', 'model:fault_floor', 'model:round_floor',
-                   'model:tolerance_floor', 'model:regime_floor', 'model:twin_floor', 'model:option_floor', 'model:order_floor', 'model:minimal_model', 'model:mixed_floor', 'model:fine_sweep_floor', 'project_frequency', 'model:near_miss_junction',
+                   'model:tolerance_floor', 'model:regime_floor', 'model:twin_floor', 'model:option_floor', 'model:order_floor', 'model:minimal_model', 'model:mixed_floor', 'model:lifetime_floor', 'model:thread_floor', 'model:fine_sweep_floor', 'project_frequency', 'model:near_miss_junction',
                    'model:near_miss_ground_contact']
 
 
